@@ -666,8 +666,9 @@ macro_rules! algorithm {
                 Some(Some(_)) => into_error!(InvalidLeadingZeros, index),
                 // Have a non-digit character that follows.
                 Some(None) => $invalid_digit!(<T>::ZERO, iter.cursor() + 1, iter.current_count()),
-                // No digits following, has to be ok
-                None => $into_ok!(<T>::ZERO, index, iter.current_count()),
+                // No digits following, has to be ok. The partial parsers
+                // report the number of bytes consumed, including the zero.
+                None => $into_ok!(<T>::ZERO, iter.cursor(), iter.current_count()),
             };
         }
     }
